@@ -28,6 +28,36 @@ def nonzero_row(ctx, row):
         ctx.assume(sum((x * x for x in row[1:]), row[0] * row[0]), "+")
 
 
+def model_step(kind, groups, V, U, a, M):
+    """the operator as the sparse models apply it: Sparse{Linear,MLP}Model._update_weights after an optimiser step that leaves
+    the weights where they are, with learning rate 1 (threshold alpha * 1) -- on a bare instance carrying only the attributes the
+    step reads"""
+    from gemclus.sparse import SparseMLPModel, SparseLinearModel
+
+    class _Still:
+        learning_rate = 1.0
+
+        def update_params(self, w, g):
+            pass
+    if kind == "mlp":
+        m = object.__new__(SparseMLPModel)
+        m.W_skip_, m.W1_, m.M = V, U, M
+    else:
+        m = object.__new__(SparseLinearModel)
+        m.W_ = V
+    m.alpha, m.groups_, m.optimiser_ = a, groups, _Still()
+    m.groups = groups
+    m._update_weights([], [])
+    return (m.W_skip_, m.W1_) if kind == "mlp" else m.W_
+
+
+def applied(contract):
+    """the same contract, its native replay going through the model's own update step (size ladder, B tier)"""
+    contract.applied = True
+    contract.label += ", as applied by the model's _update_weights"
+    return contract
+
+
 class LinearProx(SxContract):
     """linear_prox_grad(W, alpha): requires alpha >= 0; ensures per row the closed form of the group-lasso prox.
     structures: generic | zero_row (row 0 concrete zeros) | alpha0 (alpha == 0) | tie (||w|| == alpha exactly)"""
@@ -71,7 +101,7 @@ class LinearProx(SxContract):
     def native(self, env, inp):
         W = sx.to_float(inp["W"], env)
         a = float(dag.fev(sx.lift(inp["alpha"]), env))
-        Z = PG.linear_prox_grad(W.copy(), a)
+        Z = model_step("linear", None, W.copy(), None, a, None) if getattr(self, "applied", False) else PG.linear_prox_grad(W.copy(), a)
         res = {}
         for i in range(self.d):
             want = spec.group_lasso_row(list(W[i]), a)
@@ -129,7 +159,7 @@ def _group_native(self, env, inp):
     """float replay for the group wrappers: each group against the row operator on the flattened group"""
     W = sx.to_float(inp["W"], env)
     a = float(dag.fev(sx.lift(inp["alpha"]), env))
-    Z = PG.group_linear_prox_grad(self.groups, W.copy(), a)
+    Z = model_step("linear", self.groups, W.copy(), None, a, None) if getattr(self, "applied", False) else PG.group_linear_prox_grad(self.groups, W.copy(), a)
     ok = True
     det = {"W": W.tolist(), "alpha": a, "groups": self.groups, "code": np.asarray(Z).tolist()}
     for g in self.groups:
@@ -209,7 +239,7 @@ class HierProx(SxContract):
         V, U = sx.to_float(inp["V"], env), sx.to_float(inp["U"], env)
         a = float(dag.fev(sx.lift(inp["alpha"]), env))
         M = float(dag.fev(sx.lift(inp["M"]), env))
-        beta, theta = PG.mlp_prox_grad(V.copy(), U.copy(), a, M)
+        beta, theta = model_step("mlp", None, V.copy(), U.copy(), a, M) if getattr(self, "applied", False) else PG.mlp_prox_grad(V.copy(), U.copy(), a, M)
         # independent reference: brute-force the one-dimensional problem in x = ||beta||/||v||
         res = {}
         ok = True
@@ -276,7 +306,7 @@ def _group_hier_native(self, env, inp):
     V, U = sx.to_float(inp["V"], env), sx.to_float(inp["U"], env)
     a = float(dag.fev(sx.lift(inp["alpha"]), env))
     M = float(dag.fev(sx.lift(inp["M"]), env))
-    B, T = PG.group_mlp_prox_grad(self.groups, V.copy(), U.copy(), a, M)
+    B, T = model_step("mlp", self.groups, V.copy(), U.copy(), a, M) if getattr(self, "applied", False) else PG.group_mlp_prox_grad(self.groups, V.copy(), U.copy(), a, M)
     ok = True
     det = {"V": V.tolist(), "U": U.tolist(), "alpha": a, "M": M, "groups": self.groups}
     for g in self.groups:
